@@ -61,8 +61,8 @@ const (
 var Modes = []Mode{ModeHealthy, ModeRefused, ModeTimeout, ModeHTTP500, ModeHTTP503, ModeServerError, ModeBadData, ModeExecution, ModeNotFound, ModeTruncated}
 
 // HTTPMode is a parametrised fault mode: the upstream answers every request with the given status code and a body of
-// the given kind - "empty", "html", "text", "truncjson" (a JSON error envelope cut in half) or "json-<errorType>"
-// (a complete Prometheus error envelope with that errorType). Any status can be used, registered with net/http or
+// the given kind - "empty", "html", "text", "truncjson" (a JSON error envelope cut in half), "json-<errorType>"
+// (a complete Prometheus error envelope with that errorType) or "jsonnotype" (a complete envelope without errorType). Any status can be used, registered with net/http or
 // not (520-527, 530, 509, 598, 599 ...). Spelled "http:<code>:<body>".
 func HTTPMode(code int, body string) Mode { return Mode(fmt.Sprintf("http:%d:%s", code, body)) }
 
@@ -77,7 +77,7 @@ func (m Mode) HTTP() (code int, body string, ok bool) {
 		return 0, "", false
 	}
 	switch b := parts[2]; {
-	case b == "empty", b == "html", b == "text", b == "truncjson", strings.HasPrefix(b, "json-") && len(b) > 5:
+	case b == "empty", b == "html", b == "text", b == "truncjson", b == "jsonnotype", strings.HasPrefix(b, "json-") && len(b) > 5:
 		return code, b, true
 	}
 	return 0, "", false
@@ -426,6 +426,9 @@ func (u *Upstream) handle(w http.ResponseWriter, r *http.Request) {
 			w.Header().Set("Content-Type", "application/json")
 			full := ErrorBody("server_error", mode.ErrorText(u.Index))
 			body = full[:len(full)/2]
+		case kind == "jsonnotype": // a complete envelope that names no errorType at all
+			w.Header().Set("Content-Type", "application/json")
+			body = `{"status":"error","error":` + jsonString(mode.ErrorText(u.Index)) + `}`
 		case strings.HasPrefix(kind, "json-"):
 			w.Header().Set("Content-Type", "application/json")
 			body = ErrorBody(strings.TrimPrefix(kind, "json-"), mode.ErrorText(u.Index))
